@@ -99,8 +99,19 @@ type ContractSet struct {
 	ObjInvs   map[string][]*ObjInv
 	Guarded   map[string]string // "pkg.Type.field" -> mutex field name
 	Owned     []string
+	Finals    []string
+	Standins  []Standin
 	Files     []string
 	Errors    []string
+}
+
+// Standin: a bounded cross-check (a Go test run through -overlay) of an ASSUMED contract
+// against the real function. Labelled bounded in the evidence, never counted as proved.
+type Standin struct {
+	Func string // the assumed function
+	Pkg  string // package directory relative to the repo
+	File string // test file relative to /verif
+	Test string
 }
 
 func newContractSet() *ContractSet {
@@ -288,6 +299,26 @@ func (cs *ContractSet) loadContractFile(path string, pkgPath string) error {
 			cs.ObjInvs[oi.Type] = append(cs.ObjInvs[oi.Type], oi)
 			cur = nil
 			lastText = &oi.Text
+			continue
+		case "standin":
+			// standin <funcref> <pkg dir> <test file under /verif> <TestName>
+			if len(fields) != 5 {
+				errf(i, "standin funcref pkgdir file TestName")
+				continue
+			}
+			cs.Standins = append(cs.Standins, Standin{Func: fields[1], Pkg: fields[2], File: fields[3], Test: fields[4]})
+			cur = nil
+			lastText = nil
+			continue
+		case "final":
+			// final pkg.Type.Field: assigned only during construction / dependency injection
+			if len(fields) > 1 {
+				if k := strings.LastIndex(fields[1], "."); k > 0 {
+					cs.Finals = append(cs.Finals, fields[1][:k]+"#"+fields[1][k+1:])
+				}
+			}
+			cur = nil
+			lastText = nil
 			continue
 		case "owned":
 			// owned pkg.Type: writes to objects of this type require the ghost owns(ref)
